@@ -81,6 +81,25 @@ def evaluate(i, scn):
         lat = xr.DataArray(np.sqrt(np.clip(np.cos(np.deg2rad(sw.fcoord)), 0, 1)), dims=(sw.fname,), coords={sw.fname: sw.fcoord})
         m2 = W.fit_eof(cls, sw, X, weights=lat, use_coslat=False)
         W.results_equal(ck, "C08", cl, m1, m2, "use_coslat vs weights sqrt(cos(lat))", n, pred=scn["pred"])
+    # weights given as a Dataset / a list matching the input (same numbers, other container)
+    if c["wp"] != "ones" and sw.p >= 2 and rel == "none" and c["dtype"] == "real" and not sw.lat:
+        h = sw.p // 2
+        w = sw.weights()
+        fa, fb = X.isel({sw.fname: slice(0, h)}), X.isel({sw.fname: slice(h, None)})
+        wa, wb = w.isel({sw.fname: slice(0, h)}), w.isel({sw.fname: slice(h, None)})
+        sv1 = np.asarray(m1.singular_values().values)
+        for label, data_, wts in (("list", [fa, fb], [wa, wb]),
+                                  ("Dataset", xr.Dataset({"a": fa, "b": fb.assign_coords({sw.fname: fa[sw.fname].values[: fb.sizes[sw.fname]]})}) if fa.sizes[sw.fname] == fb.sizes[sw.fname] else None,
+                                   xr.Dataset({"a": wa, "b": wb.assign_coords({sw.fname: wa[sw.fname].values[: wb.sizes[sw.fname]]})}) if fa.sizes[sw.fname] == fb.sizes[sw.fname] else None)):
+            if data_ is None:
+                continue
+            try:
+                mc = W.fit_eof(cls, sw, data_, weights=wts)
+                svc = np.asarray(mc.singular_values().values)
+                ck.m(svc.shape == sv1.shape and np.allclose(svc, sv1, rtol=1e-8, atol=1e-10 * max(sv1.max(), 1e-300)), "C08", "C08_WeightsArePremultiplication",
+                     f"weights given as a {label} matching the input: singular values {svc.tolist()} differ from the DataArray fit {sv1.tolist()}")
+            except Exception as e:  # noqa
+                ck.d(False, "C08", "C08_WeightsArePremultiplication", f"weights given as a {label} raised {type(e).__name__}: {str(e)[:120]}")
     return dict(found=ck.found, P=ck.P, D=ck.D, M=ck.M, count={rel: 1})
 
 
